@@ -13,7 +13,9 @@
 (* command with the table taken from the real API.                         *)
 (***************************************************************************)
 EXTENDS Integers, Sequences, FiniteSets, TLC
-CONSTANTS NR   \* max number of style rules (besides the variable-defining :root block)
+CONSTANTS NR,               \* max number of style rules (besides the variable-defining :root block)
+          RootPostOverwrites, \* TRUE = before the repair: the :root/html post-pass restores the pre-parsed declarations (F4)
+          FallbackWritten     \* FALSE = before the repair: var(--x, fallback) is counted but nothing is written (F5)
 Vars == {"x", "y"}
 Pal == 0..4            \* 0 unfixable, 1 fixable, 2 ok on L / fixable on G, 3 ok everywhere, 4 not a colour
 Bgs == {"L", "G"}
@@ -72,7 +74,14 @@ Process ==
                           /\ (IF r.col[2] \in DOMAIN vdef /\ vdef[r.col[2]][1] # "undef"
                               THEN vdef' = [vdef EXCEPT ![r.col[2]] = <<"lit", o[2]>>] ELSE UNCHANGED vdef)
                           /\ UNCHANGED <<rules, rootDirty>>
-                       ELSE IF r.col[1] = "varfb" THEN UNCHANGED <<vdef, rules, rootDirty>>   \* F5: nothing written
+                       ELSE IF r.col[1] = "varfb" THEN
+                          IF ~FallbackWritten THEN UNCHANGED <<vdef, rules, rootDirty>>       \* F5 (repaired): nothing written
+                          ELSE IF r.col[2] \in DOMAIN vdef /\ vdef[r.col[2]][1] # "undef"
+                               THEN /\ vdef' = [vdef EXCEPT ![r.col[2]] = <<"lit", o[2]>>]     \* property defined: its definition
+                                    /\ UNCHANGED <<rules, rootDirty>>
+                               ELSE /\ rules' = [rules EXCEPT ![i].col = <<"lit", o[2]>>]      \* fallback in effect: the declaration
+                                    /\ rootDirty' = IF r.root THEN rootDirty \cup {i} ELSE rootDirty
+                                    /\ UNCHANGED vdef
                        ELSE /\ rules' = [rules EXCEPT ![i].col = <<"lit", o[2]>>]
                             /\ rootDirty' = IF r.root THEN rootDirty \cup {i} ELSE rootDirty
                             /\ UNCHANGED vdef
@@ -80,7 +89,7 @@ Process ==
   /\ i' = i + 1 /\ UNCHANGED <<sheet0, phase, tab>>
 \* post-pass: :root/html rules are re-serialised from the declarations parsed before processing (F4)
 Post == /\ phase = "run" /\ i = Len(rules) + 1
-        /\ rules' = [k \in 1..Len(rules) |-> IF k \in rootDirty THEN sheet0[2][k] ELSE rules[k]]
+        /\ rules' = [k \in 1..Len(rules) |-> IF RootPostOverwrites /\ k \in rootDirty THEN sheet0[2][k] ELSE rules[k]]
         /\ i' = i + 1 /\ UNCHANGED <<tab, phase, sheet0, vdef, acc, tuned, failed, cards, failedSel, rootDirty>>
 Next == AddRule \/ Start \/ Process \/ Post
 Spec == Init /\ [][Next]_vars
@@ -94,7 +103,7 @@ ReportedIsWritten == Done => \A c \in cards : Eff(c[1]) = c[2]
 \* input classes of the known findings
 F4(k) == sheet0[2][k].root /\ sheet0[2][k].col[1] = "lit"
 F5(k) == sheet0[2][k].col[1] = "varfb"
-UsesVar(k, v) == sheet0[2][k].col[1] = "var" /\ sheet0[2][k].col[2] = v
+UsesVar(k, v) == sheet0[2][k].col[1] \in {"var", "varfb"} /\ sheet0[2][k].col[2] = v
 \* custom properties on the resolution chain of rule k's text colour (in the INPUT stylesheet)
 RECURSIVE ChainOf(_, _)
 ChainOf(e, seen) ==
@@ -104,5 +113,8 @@ ChainOf(e, seen) ==
 \* F6: a LATER rule directly references a custom property on rule k's chain (and so may re-tune it after k was reported).
 \* The last rule that uses a property is not in the class: nothing changes under it afterwards.
 F6(k) == \E k2 \in (k+1)..Len(rules) : \E v \in ChainOf(sheet0[2][k].col, {}) : UsesVar(k2, v)
-ReportedIsWrittenModuloKnown == Done => \A c \in cards : Eff(c[1]) = c[2] \/ F4(c[1]) \/ F5(c[1]) \/ F6(c[1])
+\* F4 and F5 are repaired in the code; their classes only matter for the regression configurations
+ReportedIsWrittenModuloKnown == Done => \A c \in cards :
+   Eff(c[1]) = c[2] \/ F6(c[1]) \/ (RootPostOverwrites /\ F4(c[1])) \/ (~FallbackWritten /\ F5(c[1]))
+ReportedIsWrittenModuloF6 == Done => \A c \in cards : Eff(c[1]) = c[2] \/ F6(c[1])
 ====
